@@ -852,7 +852,7 @@ func (g *gen) elabCall(x *Expr, e *env) (Val, error) {
 		if len(as) != 1 || as[0].S != "Iface" {
 			return Val{}, fmt.Errorf("sentinel(err) needs an interface value")
 		}
-		return boolVal("(and ((_ is iface-mk) " + as[0].T + ") (= (i.tag " + as[0].T + ") 1000000))"), nil
+		return boolVal("(and ((_ is iface-mk) " + as[0].T + ") (or (= (i.tag " + as[0].T + ") 1000000) (= (i.tag " + as[0].T + ") 1000001)))"), nil
 	case "has":
 		as, err := args()
 		if err != nil {
